@@ -130,7 +130,7 @@ def source_grep():
 
 # --------------------------------------------------------------------------- Rust side
 
-# configuration name -> (cargo features, cargo profile dir, extra rustflags)
+# configuration name -> (cargo features, cargo profile dir, extra rustflags[, manifest variant])
 HCFGS = {
     "std-debug": ([], "debug", ""),
     "std-release": ([], "release", ""),
@@ -138,14 +138,71 @@ HCFGS = {
     "nosimd-release": (["no_simd"], "release", ""),
     "nounroll-release": (["no_unroll"], "release", ""),
     "nounroll-debug": (["no_unroll"], "debug", ""),
+    # no-std (compile-time dispatch) builds: manifest variant "nostd", one per target-feature set
+    "nostd-sse2-release": (["nostd_build"], "release", "", "nostd"),
+    "nostd-ssse3-release": (["nostd_build"], "release", "-C target-feature=+ssse3", "nostd"),
+    "nostd-sse41-release": (["nostd_build"], "release", "-C target-feature=+sse4.1", "nostd"),
+    "nostd-avx-release": (["nostd_build"], "release", "-C target-feature=+avx", "nostd"),
+    "nostd-avx2-release": (["nostd_build"], "release", "-C target-feature=+avx2", "nostd"),
 }
+NOSTD_CFGS = ["nostd-sse2-release", "nostd-ssse3-release", "nostd-sse41-release", "nostd-avx-release", "nostd-avx2-release"]
 
 BASE_RUSTFLAGS = "--cfg zerocopy_derive_union_into_bytes --cfg cryptocorrosion_verif -Aunexpected_cfgs -Awarnings"
 
 
+def _manifest_nostd(text):
+    """cargo features are additive, so the no-std expansions need a manifest of their own:
+    `default-features = false` on c2-chacha (keeping `rustcrypto_api`), blake-hash and jh-x86_64 (the
+    dispatch macros expand in those crates, so their `std` feature selects the arms); groestl-aesni
+    does not compile without `std` (finding B2) and is dropped (harness feature `nostd_build`)."""
+    out, sect = [], ""
+    for line in text.split("\n"):
+        m = re.match(r"\s*\[([^\]]+)\]\s*$", line)
+        if m:
+            sect = m.group(1)
+        elif sect == "dependencies":
+            d = re.match(r'\s*([\w-]+)\s*=\s*\{\s*path\s*=\s*"([^"]*)"\s*\}\s*$', line)
+            if d and d.group(1) == "groestl-aesni":
+                continue
+            if d and d.group(1) == "c2-chacha":
+                line = '%s = { path = "%s", default-features = false, features = ["rustcrypto_api"] }' % d.groups()
+            elif d and d.group(1) in ("blake-hash", "jh-x86_64"):
+                line = '%s = { path = "%s", default-features = false }' % d.groups()
+        out.append(line)
+    return "\n".join(out)
+
+
+MANIFEST_VARIANTS = {"nostd": _manifest_nostd}
+
+
+def harness_variant(variant):
+    """A private copy of the harness crate (src, .cargo, Cargo.lock) with a rewritten manifest, under out/.
+    It is derived from HARNESS, so with VERIF_REPO set its path dependencies point at that repository."""
+    vdir = os.path.join(OUT, "harness_" + variant) if REPO == "/repo" else HARNESS + "_" + variant
+    os.makedirs(vdir, exist_ok=True)
+    for n in ("src", ".cargo"):
+        if os.path.exists(os.path.join(vdir, n)):
+            shutil.rmtree(os.path.join(vdir, n))
+        shutil.copytree(os.path.join(HARNESS, n), os.path.join(vdir, n))      # copy2: mtimes kept, no needless rebuilds
+    text = MANIFEST_VARIANTS[variant](open(os.path.join(HARNESS, "Cargo.toml")).read())
+    mp = os.path.join(vdir, "Cargo.toml")
+    if not os.path.exists(mp) or open(mp).read() != text:
+        open(mp, "w").write(text)
+    return vdir
+
+
 def harness_build(cfg):
-    feats, prof, extra = HCFGS[cfg]
+    feats, prof, extra = HCFGS[cfg][:3]
+    variant = HCFGS[cfg][3] if len(HCFGS[cfg]) > 3 else None
+    if variant:
+        hdir = harness_variant(variant)
+        tdir = os.path.join(hdir, "target", re.sub(r"-(debug|release)$", "", cfg))     # one per target-feature set
+        return _cargo_build(hdir, tdir, feats, prof, extra)
     tdir = os.path.join(HARNESS, "target", "+".join(feats) or "std")
+    return _cargo_build(HARNESS, tdir, feats, prof, extra)
+
+
+def _cargo_build(hdir, tdir, feats, prof, extra):
     cmd = ["cargo", "build", "--offline", "--target-dir", tdir]
     if prof == "release":
         cmd.append("--release")
@@ -154,11 +211,11 @@ def harness_build(cfg):
     env = {}
     if extra:
         env["RUSTFLAGS"] = BASE_RUSTFLAGS + " " + extra
-    lock = os.path.join(HARNESS, "Cargo.lock")
+    lock = os.path.join(hdir, "Cargo.lock")
     if not os.path.exists(lock):
-        src = os.path.join(REPO, "Cargo.lock")
+        src = os.path.join(HARNESS, "Cargo.lock") if hdir != HARNESS else os.path.join(REPO, "Cargo.lock")
         shutil.copy(src if os.path.exists(src) else "/repo/Cargo.lock", lock)
-    rc, out = run(cmd, cwd=HARNESS, env=env, timeout=3600)
+    rc, out = run(cmd, cwd=hdir, env=env, timeout=3600)
     binp = os.path.join(tdir, prof, "cch")
     return rc == 0 and os.path.exists(binp), binp, out
 
